@@ -1,4 +1,4 @@
-import ApolloModel.Proofs.SmithResponse2
+import ApolloModel.Proofs.SmithResponse5
 /-
 C33 — generated responses match the operation's shape.
 
@@ -75,5 +75,86 @@ example :
         "Query" (.cons (.field none "c" (.list (.list (.nonNullNamed "Int"))) "Int" .nil) .nil) [2, 1, 7, 0] with
       | .ok j _ => j.render
       | _ => "?") = "{\"c\":[[7],[]]}" := by decide +kernel
+
+/-! ### `collect_fields` against the specification's CollectFields (§6.3.2)
+
+`specCollectFields` (Proofs/SmithResponse3.lean) transcribes the algorithm: ordered groups, visited-fragments
+set (each named fragment at most once), DoesFragmentTypeApply through the possible types.  The builder's
+`collect_fields` has no visited set: it expands a fragment again at every spread. -/
+
+/-- **DoesFragmentTypeApply.**  For an object type `concrete` of a schema with unique type names,
+    `type_condition_matches(cond, concrete)` holds exactly when `concrete` is a possible type of `cond`
+    (the type itself; an object listing the interface — validity (C15) makes every implementer list the
+    interface directly; a member of the union). -/
+theorem type_condition_matches_spec (s : Schema) (hnd : (s.map (·.1)).Nodup) (cond concrete : Name)
+    (impls : List Name) (hc : s.get? concrete = some (.object impls)) :
+    typeConditionMatches s cond concrete = decide (concrete ∈ possibleTypes s cond) := by
+  rw [typeConditionMatches_eq_apply s hnd cond concrete impls hc]
+  unfold doesFragmentTypeApply
+  cases h : (possibleTypes s cond).contains concrete <;> simp_all
+
+/-- **Same response keys, same order; per key the same fields up to repeats.**  For a fragment table whose
+    spread graph is acyclic (a rank decreasing from a fragment to the fragments spread in its body — valid
+    documents have one), whenever both terminate: the builder's grouped field set and the specification's
+    have the same response keys in the same order, and for every key the specification's field list is the
+    builder's list with some entries removed, each of which already occurs earlier in that list
+    (`Redundant`): the builder collects a fragment's fields again each time the fragment is spread. -/
+theorem collect_keys_eq_spec (s : Schema) (hnd : (s.map (·.1)).Nodup) (frags : Fragments) (rank : Name → Nat)
+    (hac : Acyclic frags rank) (concrete : Name) (impls : List Name) (hc : s.get? concrete = some (.object impls))
+    (sels : Sels) (fm fs : Nat) (g gs : Grouped) (v : List Name)
+    (hm : collectFields s frags concrete fm sels = some g)
+    (hs : specCollectFields s frags concrete fs [] [] sels = some (gs, v)) :
+    g.keys = gs.keys ∧ ∀ k, Redundant [] (g.get k) (gs.get k) :=
+  collect_vs_spec s hnd frags rank hac concrete impls hc sels fm fs g gs v hm hs
+
+/-- …in particular, per key, both collect exactly the same set of fields. -/
+theorem collect_same_fields (s : Schema) (hnd : (s.map (·.1)).Nodup) (frags : Fragments) (rank : Name → Nat)
+    (hac : Acyclic frags rank) (concrete : Name) (impls : List Name) (hc : s.get? concrete = some (.object impls))
+    (sels : Sels) (fm fs : Nat) (g gs : Grouped) (v : List Name)
+    (hm : collectFields s frags concrete fm sels = some g)
+    (hs : specCollectFields s frags concrete fs [] [] sels = some (gs, v)) (k : String) (x : FieldInfo) :
+    x ∈ g.get k ↔ x ∈ gs.get k := by
+  have h := (collect_vs_spec s hnd frags rank hac concrete impls hc sels fm fs g gs v hm hs).2 k
+  constructor
+  · intro hx
+    rcases h.mem_iff.2 x hx with e | e
+    · cases e
+    · exact e
+  · exact h.mem_iff.1 x
+
+/-- The repeats really occur: `{ ...F ...F }` with `fragment F on Q { a }` — the builder keeps two copies of
+    `a` under the key `a`, the specification one (kernel-evaluated). -/
+theorem collect_duplicates_occur :
+    let s : Schema := [("Q", .object []), ("Int", .scalar)]
+    let frags : Fragments := [("F", "Q", .cons (.field none "a" (.named "Int") "Int" .nil) .nil)]
+    let sels : Sels := .cons (.spread "F") (.cons (.spread "F") .nil)
+    (collectFields s frags "Q" 10 sels).map (fun g => g.map fun e => (e.1, e.2.length)) = some [("a", 2)] ∧
+    (specCollectFields s frags "Q" 10 [] [] sels).map (fun r => (r.1.map fun e => (e.1, e.2.length), r.2)) =
+      some ([("a", 1)], ["F"]) := by
+  decide +kernel
+
+/-- **Fuel.**  For an acyclic fragment table `collect_fields` never runs out of fuel once the fuel is at least
+    `collectFuel` = (cells of the selection set at this level) + (largest rank spread + 1) × (largest fragment
+    body): the model's `none` is not reachable for valid documents. -/
+theorem collect_fuel_sufficient (s : Schema) (frags : Fragments) (concrete : Name) (rank : Name → Nat)
+    (hac : Acyclic frags rank) (sels : Sels) (f : Nat) (hf : collectFuel frags rank sels ≤ f) :
+    ∃ g, collectFields s frags concrete f sels = some g :=
+  collectFields_total s frags concrete rank hac sels f hf
+
+/-- **`response_object`, in terms of the specification.**  The object generated for a selection set has
+    exactly the response keys of the specification's CollectFields for the concrete type that was drawn, in
+    that order (for an object concrete type, unique type names, an acyclic fragment table). -/
+theorem response_object_spec_keys (s : Schema) (hnd : (s.map (·.1)).Nodup) (frags : Fragments) (rank : Name → Nat)
+    (hac : Acyclic frags rank) (cfg : Cfg) (f : Nat) (ty : Name) (sels : Sels)
+    (script : List Nat) (j : Json) (r : List Nat) (h : selectionSet s frags cfg f ty sels script = .ok j r) :
+    ∃ concrete script' fields,
+      concreteType s ty script = .ok concrete script' ∧ j = .obj fields ∧
+      ∀ impls fs gs v, s.get? concrete = some (.object impls) →
+        specCollectFields s frags concrete fs [] [] sels = some (gs, v) → fields.keys = gs.keys := by
+  obtain ⟨concrete, script', grouped, fields, h1, h2, h3, h4, _⟩ := response_object s frags cfg f ty sels script j r h
+  refine ⟨concrete, script', fields, h1, h3, ?_⟩
+  intro impls fs gs v hc hs
+  rw [h4]
+  exact (collect_vs_spec s hnd frags rank hac concrete impls hc sels f fs grouped gs v h2 hs).1
 
 end Apollo.C33
